@@ -16,7 +16,18 @@ limitations under the License.
 
 package bpmn
 
-func distributeFlows(awaitingActions []chan IAction, sequenceFlows []*SequenceFlow) {
+import "context"
+
+// deliverAction hands an action to a waiting flow unless the context is done
+// (the flow may be gone then, and the sender must not block forever).
+func deliverAction(ctx context.Context, ch chan IAction, action IAction) {
+	select {
+	case ch <- action:
+	case <-ctx.Done():
+	}
+}
+
+func distributeFlows(ctx context.Context, awaitingActions []chan IAction, sequenceFlows []*SequenceFlow) {
 	indices := make([]int, len(sequenceFlows))
 	for i := range indices {
 		indices[i] = i
@@ -33,17 +44,17 @@ func distributeFlows(awaitingActions []chan IAction, sequenceFlows []*SequenceFl
 
 		if rangeEnd <= len(sequenceFlows) {
 			if i >= rangeEnd {
-				action <- completeAction{}
+				deliverAction(ctx, action, completeAction{})
 			} else {
-				action <- flowAction{
+				deliverAction(ctx, action, flowAction{
 					sequenceFlows:      sequenceFlows[i:rangeEnd],
 					unconditionalFlows: indices[0 : rangeEnd-i],
-				}
+				})
 			}
 		} else {
 			// signal completion to flows that aren't
 			// getting any flows
-			action <- completeAction{}
+			deliverAction(ctx, action, completeAction{})
 		}
 	}
 }
